@@ -11,6 +11,9 @@ LOOKALIKE = {"k": "K", "K": "K", "s": "ſ", "S": "ſ", "i": "İ", "I": "ı",
 ALPHA_SETS = [
     list("ab"), list("abA"), list("aAbB"), list("ksKS"), list("ab-"), list("a b"), list("xyz"),
     ["a", "b", "\x00"], ["a", "\x7f", "\x80"], ["a", "퟿", "\ud800"], ["a", "\U0010ffff", "\U00010000"],
+    # the same text in different Unicode normalisation forms is DIFFERENT text to ABNF: e-acute vs e + combining acute, Angstrom sign vs
+    # A-ring, the fi ligature vs f i
+    ["e", "\u00e9", "\u0301"], ["A", "\u00c5", "\u212b", "\u030a"], ["f", "i", "\ufb01"],
 ]
 NAME_STYLES = [lambda k: f"r{k}", lambda k: f"R{k}", lambda k: f"rule-{k}", lambda k: f"Ab-{k}x"]
 
